@@ -1675,3 +1675,54 @@ def calls_in_defaults(fnode):
                 hits.append((q.arg, d, f"`{norm(c)}` is called once, at definition time"))
                 break
     return len(pairs), hits
+
+
+def cursor_advances(fnode):
+    """A cursor into a parallel list: `k = 0` in front of a loop, `L[k]` / `L[k + i]` read in the arms of an if/elif
+    chain of the loop body, `k += n` at the end of an arm.  Every arm that consumes entries at the cursor has to advance
+    it; an arm that reads `L[k ..]` and leaves k where it was makes every later iteration read the entries of an earlier
+    one.  -> (cursors inspected, [(cursor name, loop, arm statements that read but do not advance)])"""
+    n, hits = 0, []
+    for loop in [x for x in walk_no_nested(fnode) if isinstance(x, (ast.For, ast.While))]:
+        augs = {}
+        for a in ast.walk(loop):
+            if isinstance(a, ast.AugAssign) and isinstance(a.op, ast.Add) and isinstance(a.target, ast.Name):
+                augs.setdefault(a.target.id, []).append(a)
+        for k, incs in augs.items():
+            # initialised once before the loop, never re-assigned inside it
+            if any(isinstance(a, ast.Assign) and any(isinstance(t, ast.Name) and t.id == k for t in a.targets) for a in ast.walk(loop)):
+                continue
+            if isinstance(loop, ast.For) and any(isinstance(t, ast.Name) and t.id == k for t in ast.walk(loop.target)):
+                continue
+
+            def leaves(stmts):
+                """leaf arms of the if/elif nest at the end of a block (an arm = its statement list)"""
+                out = []
+                ifs = [st for st in stmts if isinstance(st, ast.If)]
+                if not ifs:
+                    return [stmts]
+                plain = [st for st in stmts if not isinstance(st, ast.If)]
+                for iff in ifs:
+                    out += [plain + arm for arm in leaves(iff.body)]
+                    if iff.orelse:
+                        out += [plain + arm for arm in leaves(iff.orelse)]
+                return out
+
+            def reads_at_cursor(arm):
+                for st in arm:
+                    for x in ast.walk(st):
+                        if isinstance(x, ast.Subscript) and isinstance(x.ctx, ast.Load) and any(isinstance(y, ast.Name) and y.id == k for y in ast.walk(x.slice)):
+                            return True
+                return False
+
+            def advances(arm):
+                return any(isinstance(x, ast.AugAssign) and isinstance(x.target, ast.Name) and x.target.id == k for st in arm for x in ast.walk(st))
+
+            arms = [a for a in leaves(loop.body) if reads_at_cursor(a) and not block_always_raises(a)]
+            if len(arms) < 2 or sum(1 for a in arms if advances(a)) < 1:
+                continue
+            n += 1
+            bad = [a for a in arms if not advances(a)]
+            if bad:
+                hits.append((k, loop, bad))
+    return n, hits
